@@ -511,14 +511,27 @@ func swarm(p params, dir string) *result {
 		var pending []string
 		pmu.Lock()
 		for _, name := range p.peers {
-			if pe := peers[name]; pe != nil && pe.ret == "none" {
+			if pe := peers[name]; pe != nil && pe.ret == "none" && !(name == "s1" && p.origin) {
 				pending = append(pending, name)
 			}
 		}
 		pmu.Unlock()
-		res.err = fmt.Errorf("Download still blocked after %s for %v (np=%d pipe=%d maxc=%v corrupt=%v leaver=%q): liveness not observed within the time bound",
-			swarmTimeout, pending, p.np, p.pipe, p.maxc, p.corrupt, p.leaver)
-		r.close()
+		// diagnostics only (the partial trace is not judged): what the storage boundary saw before the time bound
+		var badServes, badAccepted, rejected int
+		for _, e := range r.close() {
+			switch {
+			case e.ev == "Serve" && e.kv[1] != "x1" && e.kv[5] == false && e.kv[7] == "ok":
+				badServes++
+			case e.ev == "WEnd" && e.kv[5] == false && e.kv[9] == "ok":
+				badAccepted++
+			case e.ev == "WEnd" && e.kv[9] == "rej":
+				rejected++
+			}
+		}
+		res.err = fmt.Errorf("Download still blocked after %s for %v (np=%d pipe=%d maxc=%v corrupt=%v leaver=%q origin=%v): liveness not "+
+			"observed within the time bound [seen so far: %d payloads rejected by storage, %d wrong payloads handed out by honest peers, "+
+			"%d wrong payloads accepted]", swarmTimeout, pending, p.np, p.pipe, p.maxc, p.corrupt, p.leaver, p.origin,
+			rejected, badServes, badAccepted)
 		return res
 	}
 
